@@ -22,6 +22,7 @@ import (
 
 	"github.com/vektah/gqlparser/v2/ast"
 
+	"verifharness/internal/gen"
 	"verifharness/internal/impl"
 	"verifharness/internal/rng"
 )
@@ -560,10 +561,26 @@ func sameVarsObs(goObs, model string) bool {
 
 var tWorker, tDriver, tSpec time.Duration
 
+type varSpec struct {
+	name string
+	typ  *ast.Type
+}
+
 type varsCase struct {
 	schema, doc string
-	typ         *ast.Type
+	opIndex     int
+	vars        []varSpec // the declared variables whose values are judged against the specification
 	vals        []string
+}
+
+func oneVar(t *ast.Type) []varSpec { return []varSpec{{"v", t}} }
+
+func (cs varsCase) declared() string {
+	parts := make([]string, len(cs.vars))
+	for i, v := range cs.vars {
+		parts[i] = "$" + v.name + ": " + v.typ.String()
+	}
+	return strings.Join(parts, ", ")
 }
 
 type varsStats struct {
@@ -583,7 +600,7 @@ func typeSexp(t *ast.Type) string { var s impl.Sx; s.Type(t); return s.String() 
 func (c *Ctx) runVarsCases(cases []varsCase, st *varsStats) {
 	reqs := make([]string, len(cases))
 	for i, cs := range cases {
-		reqs[i] = "varsgo " + impl.HexW([]byte(cs.schema)) + " " + impl.HexW([]byte(cs.doc)) + " 0 (list " + strings.Join(cs.vals, " ") + ")"
+		reqs[i] = "varsgo " + impl.HexW([]byte(cs.schema)) + " " + impl.HexW([]byte(cs.doc)) + " " + strconv.Itoa(cs.opIndex) + " (list " + strings.Join(cs.vals, " ") + ")"
 	}
 	t0 := time.Now()
 	replies := c.Worker.Map(reqs)
@@ -615,7 +632,7 @@ func (c *Ctx) runVarsCases(cases []varsCase, st *varsStats) {
 	// its three classes one by one; supplied values: Coercible, … with the R14c exception.
 	var sreqs []string
 	type sref struct {
-		ci           int
+		ci, vi       int // case, variable
 		resIx, supIx []int
 	}
 	var srefs []sref
@@ -631,8 +648,8 @@ func (c *Ctx) runVarsCases(cases []varsCase, st *varsStats) {
 			continue
 		}
 		schemaSx := balanced(dreqs[k], strings.Index(dreqs[k], "(SCHEMA"))
-		var resVals, supVals []string
-		var resIx, supIx []int
+		resVals, supVals := make([][]string, len(cs.vars)), make([][]string, len(cs.vars))
+		resIx, supIx := make([][]int, len(cs.vars)), make([][]int, len(cs.vars))
 		for j := range mo {
 			st.cases++
 			c.Ev.Traces++
@@ -665,18 +682,23 @@ func (c *Ctx) runVarsCases(cases []varsCase, st *varsStats) {
 			}
 			if !sameVarsObs(g, mo[j]) {
 				st.mismatches++
-				c.Report("correspondence", "vars-model-differs", fmt.Sprintf("VariableValues and the Lean model disagree: type %s vars %s: go=%s model=%s", cs.typ.String(), cs.vals[j], g, mo[j]),
+				c.Report("correspondence", "vars-model-differs", fmt.Sprintf("VariableValues and the Lean model disagree: %s vars %s: go=%s model=%s", cs.declared(), cs.vals[j], g, mo[j]),
 					map[string]any{"op": "vars", "schema": cs.schema, "document": cs.doc, "vars": cs.vals[j], "go_observation": g, "model_observation": mo[j]})
 			}
 			if strings.HasPrefix(g, "OK ") {
 				if n, err := impl.ParseSexp(g[3:]); err == nil {
 					sup, _ := impl.ParseSexp(cs.vals[j])
-					if rv := n.MapEntry("v"); rv != nil {
-						resVals = append(resVals, rv.String())
-						resIx = append(resIx, j)
-						if sv := sup.MapEntry("v"); sv != nil {
-							supVals = append(supVals, sv.String())
-							supIx = append(supIx, j)
+					for vi, vs := range cs.vars {
+						rv := n.MapEntry(vs.name)
+						if rv == nil {
+							st.outcome["variable absent without default: nothing returned for it"]++
+							continue
+						}
+						resVals[vi] = append(resVals[vi], rv.String())
+						resIx[vi] = append(resIx[vi], j)
+						if sv := sup.MapEntry(vs.name); sv != nil {
+							supVals[vi] = append(supVals[vi], sv.String())
+							supIx[vi] = append(supIx[vi], j)
 							rs, ss := rv.String(), sv.String()
 							switch {
 							case rs == ss:
@@ -691,15 +713,17 @@ func (c *Ctx) runVarsCases(cases []varsCase, st *varsStats) {
 								st.outcome["a single value was wrapped into a list"]++
 							}
 						} else {
-							st.outcome["variable absent: default / nothing returned"]++
+							st.outcome["variable absent: its default returned"]++
 						}
 					}
 				}
 			}
 		}
-		if len(resVals) > 0 {
-			sreqs = append(sreqs, "judge "+resBits+" "+supBits+" (list "+schemaSx+" "+typeSexp(cs.typ)+" (list "+strings.Join(resVals, " ")+") (list "+strings.Join(supVals, " ")+"))")
-			srefs = append(srefs, sref{i, resIx, supIx})
+		for vi, vs := range cs.vars {
+			if len(resVals[vi]) > 0 {
+				sreqs = append(sreqs, "judge "+resBits+" "+supBits+" (list "+schemaSx+" "+typeSexp(vs.typ)+" (list "+strings.Join(resVals[vi], " ")+") (list "+strings.Join(supVals[vi], " ")+"))")
+				srefs = append(srefs, sref{i, vi, resIx[vi], supIx[vi]})
+			}
 		}
 	}
 	t0 = time.Now()
@@ -719,8 +743,9 @@ func (c *Ctx) runVarsCases(cases []varsCase, st *varsStats) {
 			continue
 		}
 		cs := cases[r.ci]
+		vs := cs.vars[r.vi]
 		for x, vi := range r.resIx {
-			ex := fmt.Sprintf("$v: %s  vars %s → %s", cs.typ.String(), cs.vals[vi], goObs[r.ci][vi])
+			ex := fmt.Sprintf("$%s: %s  vars %s → %s", vs.name, vs.typ.String(), cs.vals[vi], goObs[r.ci][vi])
 			st.judged++
 			switch {
 			case groups[0][x] == '1':
@@ -740,7 +765,7 @@ func (c *Ctx) runVarsCases(cases []varsCase, st *varsStats) {
 			}
 		}
 		for x, vi := range r.supIx {
-			ex := fmt.Sprintf("$v: %s  vars %s → %s", cs.typ.String(), cs.vals[vi], goObs[r.ci][vi])
+			ex := fmt.Sprintf("$%s: %s  vars %s → %s", vs.name, vs.typ.String(), cs.vals[vi], goObs[r.ci][vi])
 			switch {
 			case groups[6][x] == '1':
 			case groups[7][x] == '1':
@@ -807,7 +832,11 @@ func checkVarsHalf(c *Ctx, report bool) {
 				for j := range vals {
 					vals[j] = g.varsMap(t, multi)
 				}
-				cases = append(cases, varsCase{sdl, doc, t, vals})
+				vars := oneVar(t)
+				if multi {
+					vars = []varSpec{{"a", &ast.Type{NamedType: "Int"}}, {"v", t}, {"z", &ast.Type{Elem: &ast.Type{NamedType: "Int", NonNull: true}}}}
+				}
+				cases = append(cases, varsCase{sdl, doc, 0, vars, vals})
 				n -= k
 			}
 		}
@@ -821,13 +850,53 @@ func checkVarsHalf(c *Ctx, report bool) {
 			for j := 0; j < perType/12; j++ {
 				vals = append(vals, g.varsMap(t, false))
 			}
-			cases = append(cases, varsCase{sdl, doc, t, vals})
+			cases = append(cases, varsCase{sdl, doc, 0, oneVar(t), vals})
 		}
 		if len(cases) >= 600 {
 			flush()
 		}
 	}
 	flush()
+	baseCases := st.cases
+	// second family: generated schemas and generated valid documents (the typed generators of
+	// internal/gen), every operation that declares variables, EVERY declared variable judged
+	nSchemas := c.Pick(150, 1500)
+	genOps := 0
+	for si := 0; si < nSchemas; si++ {
+		gs := gen.GenSchema(c.R, c.R.Intn(9))
+		gsdl := gs.SDL()
+		for di := 0; di < 6; di++ {
+			d := gen.GenDoc(c.R, gs, 1+c.R.Intn(5))
+			for oi, op := range d.Ops {
+				if len(op.Vars) == 0 {
+					continue
+				}
+				genOps++
+				vars := make([]varSpec, len(op.Vars))
+				for k, v := range op.Vars {
+					vars[k] = varSpec{v.Name, astType(v.Type)}
+					g.count(fmt.Sprintf("generated family: declared variable of list depth %d", listDepth(v.Type)))
+				}
+				g.count(fmt.Sprintf("generated family: operation with %d variables", min(len(op.Vars), 6)))
+				var vals []string
+				for j := 0; j < 12; j++ {
+					m, defect := gen.GenVars(c.R, gs, d.Text, op.Name, j%3 == 0)
+					cls := "conforming values"
+					if k := strings.Index(defect, "@"); k > 0 {
+						cls = "one defect: " + defect[:k]
+					}
+					g.count("generated family: variables map with " + cls)
+					vals = append(vals, impl.SexpGoVal(m))
+				}
+				cases = append(cases, varsCase{gsdl, d.Text, oi, vars, vals})
+			}
+		}
+		if len(cases) >= 300 {
+			flush()
+		}
+	}
+	flush()
+	fmt.Printf("generated family: %d schemas, %d operations with variables, %d triples\n", nSchemas, genOps, st.cases-baseCases)
 	fmt.Printf("X-vars: %d types, %d triples: go OK %d, ERR %d, PANIC %d; invalid documents skipped %d; MISMATCHES %d\n",
 		len(types), st.cases, st.ok, st.err, st.panic_, st.invalidDocs, st.mismatches)
 	fmt.Printf("time: go workers %v, driver (vars) %v, driver (spec verdicts) %v\n", tWorker.Round(time.Millisecond), tDriver.Round(time.Millisecond), tSpec.Round(time.Millisecond))
@@ -884,6 +953,22 @@ func checkVarsHalf(c *Ctx, report bool) {
 				map[string]any{"op": "vars", "schema": sdl, "example": st.specEx[k]})
 		}
 	}
+}
+
+func astType(t *gen.TypeRef) *ast.Type {
+	if t.Elem != nil {
+		return &ast.Type{Elem: astType(t.Elem), NonNull: t.NonNull}
+	}
+	return &ast.Type{NamedType: t.Name, NonNull: t.NonNull}
+}
+
+func listDepth(t *gen.TypeRef) int {
+	n := 0
+	for t.Elem != nil {
+		n++
+		t = t.Elem
+	}
+	return n
 }
 
 func sanitizePanic(msg string) string {
